@@ -33,7 +33,9 @@
 **   fresh    the program (with sentinel) as the first thing a new Cello Thread does
 **   nosent   the program WITHOUT sentinel in a forked child: exit status and stderr are judged
 **
-** Parameters: kind=chain|seq|seqt depth=N alpha=<codes> ppalpha=<codes> falpha=<codes>
+** Parameters: objs=types|struct|string|int (what is thrown: singleton types, or value objects
+**             caught through distinct-but-equal filter objects; see "Exception objects" below)
+**             kind=chain|seq|seqt depth=N alpha=<codes> ppalpha=<codes> falpha=<codes>
 **             shapes=all|body dyns=all|lex chain=0|1 fork=0|1 fresh=0|1 shard=k/n
 **
 ** White-box: includes the library's own Exception.c only to read the pending object of
@@ -49,6 +51,51 @@ static var ExcA = CelloEmpty(ExcA);
 static var ExcB = CelloEmpty(ExcB);
 static var ExcC = CelloEmpty(ExcC);
 static var ExcN = CelloEmpty(ExcN);   /* never thrown */
+
+/*
+** Exception objects.  objs=types (default): the singleton type objects above are both thrown
+** and listed in the filters.  objs=struct|string|int: VALUE objects are thrown and the filters
+** list DISTINCT objects that are eq() to them, so "the object bound in the handler is the one
+** that was thrown" is decided by pointer identity (and, for struct, by a payload field that
+** Cmp ignores).  Thrown objects and filters always have the same type, so eq is well defined.
+*/
+struct Exv { int code; int payload; };           /* Cmp looks at code only */
+static int Exv_Cmp(var self, var obj) {
+  struct Exv* a = self; struct Exv* b = obj;
+  return a->code - b->code;
+}
+static int Exv_Show(var self, var out, int pos) {
+  struct Exv* a = self;
+  static const char* nm[] = { "Exc?", "ExcA", "ExcB", "ExcC", "ExcN" };
+  return print_to(out, pos, "%s", $S((char*)nm[(a->code >= 1 && a->code <= 4) ? a->code : 0]));
+}
+static var Exv = Cello(Exv, Instance(Cmp, Exv_Cmp), Instance(Show, Exv_Show, NULL));
+
+enum { OBJ_TYPES = 0, OBJ_STRUCT = 1, OBJ_STRING = 2, OBJ_INT = 3 };
+static int objs_mode = OBJ_TYPES;
+static var TA, TB, TC;           /* thrown */
+static var FA, FB, FN;           /* listed in filters (FN equals nothing that is thrown) */
+
+static var mk_value(int code, int payload) {
+  static const char* nm[] = { "Exc?", "ExcA", "ExcB", "ExcC", "ExcN" };
+  if (objs_mode == OBJ_STRUCT) { struct Exv* v = new_raw(Exv); v->code = code; v->payload = payload; return v; }
+  if (objs_mode == OBJ_STRING) return new_raw(String, $S((char*)nm[code]));
+  return new_raw(Int, $I(code));
+}
+
+static void objs_setup(void) {
+  if (objs_mode == OBJ_TYPES) { TA = FA = ExcA; TB = FB = ExcB; TC = ExcC; FN = ExcN; return; }
+  TA = mk_value(1, 101); TB = mk_value(2, 102); TC = mk_value(3, 103);
+  FA = mk_value(1, 201); FB = mk_value(2, 202); FN = mk_value(4, 204);
+}
+
+/* the value of a thrown object must still be what was thrown (nothing may have written to it) */
+static int value_intact(var o, int code) {
+  if (objs_mode == OBJ_STRUCT) return ((struct Exv*)o)->code == code && ((struct Exv*)o)->payload == 100 + code;
+  if (objs_mode == OBJ_STRING) { static const char* nm[] = { "", "ExcA", "ExcB", "ExcC" }; return strcmp(c_str(o), nm[code]) == 0; }
+  if (objs_mode == OBJ_INT) return c_int(o) == code;
+  return 1;
+}
 
 enum { KBASE = 3, NCALLEE = 4, TOTLEV = 7, MAXEV = 250 };
 enum { K_CHAIN = 0, K_SEQ = 1, K_SEQT = 2 };
@@ -83,10 +130,15 @@ static struct prog* volatile PP;                    /* program being executed */
 static var volatile EXC;                            /* current(Exception) of the executing thread */
 
 static int objid(var o) {
-  return o == NULL ? 0 : o == ExcA ? 1 : o == ExcB ? 2 : o == ExcC ? 3 : o == ExcN ? 4 : 9;
+  /* identity: 1..3 = the thrown objects themselves; 5,6,4 = the (distinct, equal) filter objects */
+  if (o == NULL) return 0;
+  if (o == TA) return value_intact(o, 1) ? 1 : 8;
+  if (o == TB) return value_intact(o, 2) ? 2 : 8;
+  if (o == TC) return value_intact(o, 3) ? 3 : 8;
+  return o == FN ? 4 : o == FA ? 5 : o == FB ? 6 : 9;
 }
 static const char* objname(int id) {
-  static const char* nm[] = { "none", "A", "B", "C", "N", "?", "?", "?", "?", "other" };
+  static const char* nm[] = { "none", "A", "B", "C", "filter-object-N", "filter-object-A-not-the-thrown-A", "filter-object-B-not-the-thrown-B", "?", "thrown-object-with-altered-value", "other" };
   return (id >= 0 && id <= 9) ? nm[id] : "?";
 }
 
@@ -113,21 +165,21 @@ static void ev_add(int kind, int a, int b) {
 
 static void fn1(int l0);
 static void fn2(int l0);
-static void plain_thrower(void) { throw(ExcB, "from a plain function"); }
+static void plain_thrower(void) { throw(TB, "from a plain function"); }
 
 /* one statement slot; the throw is written lexically at the slot */
 #define STMT(SLOT, CODE) do { const int c_ = (CODE); ev_add('S', (SLOT), c_); \
   switch (c_) { \
-    case 1: throw(ExcA, "A from slot %i", $I(SLOT)); break; \
-    case 2: throw(ExcB, "B from slot %i", $I(SLOT)); break; \
-    case 3: throw(ExcC, "C from slot %i", $I(SLOT)); break; \
+    case 1: throw(TA, "A from slot %i", $I(SLOT)); break; \
+    case 2: throw(TB, "B from slot %i", $I(SLOT)); break; \
+    case 3: throw(TC, "C from slot %i", $I(SLOT)); break; \
     case 4: case 5: case 6: case 7: fn1(KBASE + c_ - 4); break; \
     case 8: plain_thrower(); break; \
     default: break; \
   } } while (0)
 
-#define FILT_A(f) ((f) == 2 ? ExcN : ExcA)
-#define FILT_B(f) ((f) == 1 ? ExcN : ExcB)
+#define FILT_A(f) ((f) == 2 ? FN : FA)
+#define FILT_B(f) ((f) == 1 ? FN : FB)
 
 /* one try/catch construct of level L: catch-all and filtered variants are separate texts */
 #define TRYCATCH(L, BODY, HAND) \
@@ -422,6 +474,8 @@ static void classify(char* label, size_t n, const struct ev* act, int nact, int 
   const struct ev* e = &EX[i]; const struct ev* a = &act[i];
   if (ek && ak && ek == ak && e->a == a->a && e->b == a->b && ek != 'N' && ek != 'Z' && ek != 'U') sym = "nesting-depth-mismatch";
   else if (ek == ak && (ek == 'N' || ek == 'Z')) sym = "nesting-depth-not-restored";
+  else if (ek == 'H' && ak == 'H' && e->a == a->a && a->b >= 4 && a->b <= 6) sym = "handler-bound-to-filter-object-not-the-thrown-object";
+  else if (ek == 'H' && ak == 'H' && e->a == a->a && a->b == 8) sym = "thrown-object-value-altered";
   else if (ek == 'H' && ak == 'H' && e->a == a->a) sym = "handler-bound-wrong-object";
   else if ((ek == 'X' && ak == 'X') || (ek == 'U' && ak == 'U')) sym = "propagated-wrong-object";
   else if ((ek == 'E' && ak == 'H' && e->a == a->a) || (ek == 'Z' && ak == 'X')) sym = "handler-ran-without-raise";
@@ -763,6 +817,13 @@ int main(int argc, char** argv) {
   if (SH == MAP_FAILED) { perror("mmap"); return 2; }
   vf_set_init(&outcomes, 1024);
   prog_init(&Q); prog_init(&PRE);
+  {
+    const char* om = vf_param("objs", "types");
+    objs_mode = strcmp(om, "struct") == 0 ? OBJ_STRUCT : strcmp(om, "string") == 0 ? OBJ_STRING : strcmp(om, "int") == 0 ? OBJ_INT : OBJ_TYPES;
+    if (objs_mode == OBJ_TYPES && strcmp(om, "types") != 0) { fprintf(stderr, "objs must be types|struct|string|int\n"); return 2; }
+    objs_setup();
+    vf_extra("exception_objects", "\"%s\"", om);
+  }
 
   if (vf.replay) do_replay(vf.replay);
 
